@@ -1146,7 +1146,7 @@ def padleft_fn(
         # MediaWiki limits the padded length to 500 characters
         cnt = min(int(cntstr), 500)
     if cnt - len(v) > len(pad) and len(pad) > 0:
-        pad = pad * ((cnt - len(v)) // len(pad))
+        pad = pad * ((cnt - len(v)) // len(pad) + 1)
     if len(v) < cnt:
         v = pad[: cnt - len(v)] + v
     return v
@@ -1172,7 +1172,7 @@ def padright_fn(
         # MediaWiki limits the padded length to 500 characters
         cnt = min(int(cntstr), 500)
     if cnt - len(v) > len(pad) and len(pad) > 0:
-        pad = pad * ((cnt - len(v)) // len(pad))
+        pad = pad * ((cnt - len(v)) // len(pad) + 1)
     if len(v) < cnt:
         v = v + pad[: cnt - len(v)]
     return v
